@@ -118,7 +118,7 @@ func gatherLine(reg *prometheus.Registry) (map[string]any, error) {
 	}
 	recv := map[string]int64{"EVENT": 0, "REQ": 0, "CLOSE": 0, "AUTH": 0, "COUNT": 0}
 	send := map[string]int64{"EOSE": 0, "EVENT": 0, "NOTICE": 0, "OK": 0, "AUTH": 0, "COUNT": 0, "CLOSED": 0}
-	ev := map[string]int64{"k0": 0, "k1": 0, "k5": 0, "k30000": 0}
+	ev := map[string]int64{"k0": 0, "k1": 0, "k5": 0, "k30000": 0, "k1024": 0, "k1025": 0, "k31024": 0}
 	line := map[string]any{"op": "observe", "conn": int64(0), "req": int64(0), "shape": "observe"}
 	for _, mf := range mfs {
 		for _, m := range mf.GetMetric() {
@@ -184,7 +184,7 @@ func C19(run *core.Run) {
 	}
 	distinct := core.NewDistinct()
 	var traces []tv.Trace
-	kinds := []int64{0, 1, 5, 30000}
+	kinds := []int64{0, 1, 5, 30000, 1024, 1025, 31024}
 	for t := 0; t < nt; t++ {
 		reg := prometheus.NewRegistry()
 		mw := mocrelay.Middleware(mocprom.NewPrometheusMiddleware(reg))
